@@ -163,7 +163,9 @@ class SocketWrapper:
                 # residual bytes at beginning of stream
                 break
             if chunk_length != 0:
-                chunk = instream.read(chunk_length)
+                # (never ask for more than the segment can hold: a huge
+                # declared size would overflow the read)
+                chunk = instream.read(min(chunk_length, len(segment)))
                 term = instream.read(2)  # CRLF which terminates chunk
                 if len(chunk) != chunk_length or len(term) != 2:
                     # premature end of chunk bytes or chunk terminator
